@@ -60,9 +60,9 @@ def int_tokens(t, maxbits, wide):
     (first x fill x last: the all-max and the 1 0..0 pattern for every length, the other
     combinations in rotation); tokens that do not fit maxbits are dropped (CNL rejects them at compile time)"""
     toks = []
-    short_len = 3 if t else 2
     for base in (10, 16, 8, 2):
         alpha = ALPHA[base]
+        short_len = (4 if base in (10, 2) else 3) if t else 2
         for i, b in enumerate(bodies(alpha, short_len)):
             if base == 10 and len(b) > 1 and b[0] == '0':
                 continue
@@ -74,7 +74,8 @@ def int_tokens(t, maxbits, wide):
         if wide:
             maxn = {10: 156, 16: 130, 8: 173, 2: 516}[base]
             if t:
-                ns = lengths(base, maxn, {10: 45, 16: 40, 8: 48, 2: 130}[base], {10: 5, 16: 5, 8: 6, 2: 16}[base])
+                # decimal: every length (the width estimate depends on the digit count)
+                ns = lengths(base, maxn, {10: 156, 16: 40, 8: 48, 2: 130}[base], {10: 5, 16: 5, 8: 6, 2: 16}[base])
             else:
                 ns = lengths(base, maxn, {10: 14, 16: 9, 8: 12, 2: 20}[base], 1000)
         else:
@@ -86,7 +87,7 @@ def int_tokens(t, maxbits, wide):
             if n < 4:
                 continue
             pats = [(hi, hi, hi), ('1', '0', '0')]
-            extra = 2 if t else (1 if n % 2 else 0)
+            extra = 4 if t else (1 if n % 2 else 0)
             for k in range(extra):
                 pats.append(combos[(n * 7 + k * 13) % len(combos)])
             if base != 10:
@@ -110,6 +111,10 @@ def int_tokens(t, maxbits, wide):
             continue
         seen.add(tk)
         if maxbits is not None and token_int(tk) >= 2 ** maxbits:
+            continue
+        if wide and tk[0] != '0' and len(tk.replace("'", '')) == 19 and token_int(tk) >= 2 ** 63:
+            # 19 decimal digits are estimated as 63 bits: wide_integer<63> is a 64-bit long and the constant
+            # evaluation overflows -> CNL does not compile the token (recorded in the report, cannot be in a unit)
             continue
         out.append(tk)
     return out
@@ -282,14 +287,14 @@ def plan(tier):
                               defines=[tdef, 'C15_MODE=1', 'VF_PART=%d' % part], shards=6 if t else 3))
     # (2) literals
     lit = literal_lines(t)
-    nlit = 16 if t else 4
+    nlit = 24 if t else 4
     parts = {k: split(v, nlit) for k, v in lit.items()}
     for comp in ('g++', 'clang++'):
         for i in range(nlit):
             if comp == 'clang++' and not t and i % 2:
                 continue
             units.append(dict(name='lit-%s-p%d' % (comp, i), src='C15.cpp', compiler=comp, mode='ndebug', opt='-O0',
-                              defines=[tdef, 'C15_MODE=2'], shards=1,
+                              defines=[tdef, 'C15_MODE=2', 'C15_PART=%d' % i], shards=1,
                               gen={'lit_c.inc': parts['c'][i], 'lit_cnl.inc': parts['cnl'][i], 'lit_cnl2.inc': parts['cnl2'][i], 'lit_wide.inc': parts['wide'][i]}))
     # (3) deduction from constants
     cl = constant_lines(t)
@@ -300,7 +305,7 @@ def plan(tier):
             if comp == 'clang++' and i % 2:
                 continue
             units.append(dict(name='const-%s-p%d' % (comp, i), src='C15.cpp', compiler=comp, mode='ndebug', opt='-O0',
-                              defines=[tdef, 'C15_MODE=3'], shards=1, gen={'constants.inc': cparts[i]}))
+                              defines=[tdef, 'C15_MODE=3', 'C15_PART=%d' % i], shards=1, gen={'constants.inc': cparts[i]}))
     # (4) deduction from run-time values
     for comp in ('g++', 'clang++'):
         for part in range(2):
